@@ -487,3 +487,20 @@ func Verif_C01_shared_set() {
 		}, []*c01Rule{r0, r1}
 	})
 }
+
+// Verif_C01_key_groups: a condition with values in two key groups (domain(full: .., suffix: ..))
+// written before another condition of the same rule: the groups of one condition are alternatives
+// (OR) wherever the condition stands in the rule; only conditions are conjoined.
+func Verif_C01_key_groups() {
+	c01Run(func(conds map[string]*c01Cond) ([]*config_parser.RoutingRule, []*c01Rule) {
+		of0, r0 := c01Outbound("r0", false)
+		f00, c00 := c01BuildCond("r0c0", []int{0}, 2, conds)
+		f01, c01 := c01BuildCond("r0c1", []int{3, 5}, 1, conds)
+		r0.conds = []*c01Cond{c00, c01}
+		first, second := f00, f01
+		if vs.Choice("r0.order", 2) == 1 {
+			first, second = f01, f00
+		}
+		return []*config_parser.RoutingRule{{AndFunctions: []*config_parser.Function{first, second}, Outbound: of0}}, []*c01Rule{r0}
+	})
+}
